@@ -1108,6 +1108,13 @@ mod builtins {
 
         if !tmp.is_empty() {
             if let Some(filler) = fill_with {
+                // like `range` this refuses to materialize an excessive number of items
+                if count - tmp.len() > 100000 {
+                    return Err(Error::new(
+                        ErrorKind::InvalidOperation,
+                        "too many items to fill the last batch with",
+                    ));
+                }
                 for _ in 0..count - tmp.len() {
                     tmp.push(filler.clone());
                 }
